@@ -297,6 +297,15 @@ def rule_r6(chk, facts):
 
 def run(chk, facts, info):
     P = facts.program('asl')
+    # wrapping a text in a parameterless macro makes its labels local to the expansion: statements that define a
+    # symbol globally (EQU, SET, labels with GLOBALSYMBOLS, ...) must evaluate their operands before they switch
+    # the local symbol space off (rule C13-R6, claimed here for the "macro wrapping" clause)
+    chk.rule('C16-R7', 'between PushLocHandle(-1) and its PopLocHandle() only definitions are made - no expression is '
+             'evaluated while the labels local to a macro expansion are invisible (C13-R6, applied to "wrapping the text '
+             'in a parameterless macro")', min_instances=30)
+    from . import c13
+    from .c12 import _Sub
+    c13.rule_r6(_Sub(chk, 'C16-R7', lambda key: True), facts, P)
     rule_r5(chk, facts, P)
     rule_r6(chk, facts)
     rule_r1(chk, facts, P)
